@@ -45,6 +45,7 @@ ASSUMPTIONS = [
     "threads only touch their own objects; shared module-level tables are read-only for callers",
 ]
 MINIMISE_SCHEDULE = True
+AUX_NAME = "interleavings (sequence of thread switches with the file:line they happened at)"
 REQUIRED_PROBES = ["preempt_in_library", "switch_in_SCSICommand_init", "three_threads", "facade_in_thread", "failed_construction"]
 
 # class key -> (module, class name, opcode set, opcode attr or ('get', suffix), needs blocksize, facade generator key)
@@ -537,7 +538,8 @@ def execute(prog):
         stats["fired." + k] = v
     for k, v in WORLD.probes.items():
         stats["probe." + k] = v
-    return {"digest": WORLD.digest(), "violations": out, "nontrivial": bool(in_lib) if multi else len(classes) >= 2,
+    aux = hashlib.sha256(json.dumps([[s_[1], s_[2], s_[3]] for s_ in S.switches]).encode()).hexdigest() if multi else None
+    return {"digest": WORLD.digest(), "violations": out, "nontrivial": bool(in_lib) if multi else len(classes) >= 2, "aux": aux,
             "stats": stats, "schedule": S.recorded_trace(), "summary": {"threads": nt, "steps": S.steps, "switches": len(S.switches)},
             "events_tail": WORLD.events[-6:]}
 
